@@ -1024,19 +1024,21 @@ def build_items(tier):
         "threshold_pairs(mls,mip)": {str(k): [[a, repr(b)] for a, b in v[: (1 if quick else 2)]] for k, v in S2B_PARAMS.items()},
     }
     # ---- stage 3
+    grid_coupled = [(a, b, c) for a in S3_NPTS for b, c in zip(S3_MELR, range(len(S3_THR)))]
+    grid_full = [(a, b, c) for a in S3_NPTS for b in S3_MELR for c in range(len(S3_THR))]
     if quick:
-        grid = [(a, b, c) for a in S3_NPTS for b, c in zip(S3_MELR, range(len(S3_THR)))]
+        grids = {2: grid_coupled, 3: grid_coupled}
         skel = {2: S3_SKELETONS[2][1:], 3: S3_SKELETONS[3][1:2]}
         cfg3 = [c for c in itertools.product(node_choices((0, 1, 4), 1), repeat=3)]
     else:
-        grid = [(a, b, c) for a in S3_NPTS for b in S3_MELR for c in range(len(S3_THR))]
+        grids = {2: grid_full, 3: grid_coupled}
         skel = S3_SKELETONS
         cfg3 = [c for c in itertools.product(node_choices((0, 1, 4), 2), repeat=3)]
     cfg2 = [c for c in itertools.product(node_choices((0, 1, 3, 4) if quick else range(5), 2), repeat=2)]
     for n, cfgs in ((2, cfg2), (3, cfg3)):
         for edges in skel[n]:
             for field in FIELDS:
-                for a, b, c in grid:
+                for a, b, c in grids[n]:
                     items.append(("3", n, tuple(edges), field, a, b, c, tuple(cfgs)))
     bounds["stage3"] = {
         "positions": POS,
@@ -1045,7 +1047,9 @@ def build_items(tier):
         "skeletons": skel,
         "frames_n2": "0..2 peaks per node of positions {0,1,3,4} (121 frames)" if quick else "0..2 peaks per node of 5 positions (256 frames)",
         "frames_n3": "0..1 peaks per node of positions {0,1,4} (64 frames)" if quick else "0..2 peaks per node of positions {0,1,4} (343 frames)",
-        "(n_points, max_edge_length_ratio, (min_line_scores, min_instance_peaks))": [[a, b, [S3_THR[c][0], repr(S3_THR[c][1])]] for a, b, c in grid],
+        "(n_points, max_edge_length_ratio, (min_line_scores, min_instance_peaks))": {
+            str(n): [[a, b, [S3_THR[c][0], repr(S3_THR[c][1])]] for a, b, c in g] for n, g in grids.items()
+        },
         "batch_layouts": list(S3_LAYOUTS),
     }
     return items, bounds
@@ -1065,8 +1069,26 @@ def item_weight(item):
     return 500
 
 
+def determinism_probe():
+    """R3: the first execution of each stage is run twice; differing observations are a harness error, not a violation."""
+    c1 = {"stage": 1, "family": "A", "edges": [[0, 1]], "channels": [0, 0, 1, 1], "order": [[0, 1], [2, 3]],
+          "S": [[[f32(0.3), f32(0.7)], [f32(0.7), -0.5]]]}
+    edges = [(1, 2), (0, 1)]
+    st = s2_static(3, edges, [2, 2, 2], 1)
+    m2 = [(0, 0, 1, 1.0), (0, 1, 0, 0.25), (1, 1, 0, 1.0)]
+    cfgs = [((0, 1), (0,), (1, 4)), ((), (), ())]
+    obs = []
+    for _ in range(2):
+        obs.append(
+            repr((s1_run(c1), s2_call(3, edges, st, m2, 0.25, 2), s3_run_batch(3, edges, cfgs, ["ideal_id", "zero"], 3, 2.0, -1.0, 0)))
+        )
+    if obs[0] != obs[1]:
+        raise RuntimeError("nondeterministic observation on identical input:\n" + obs[0] + "\n" + obs[1])
+
+
 def run(ctx):
     core.setup_torch()
+    determinism_probe()
     items, bounds = build_items(ctx.tier)
     ctx.bounds = bounds
     items = core.rotate(items, ctx.seed)
